@@ -213,10 +213,11 @@ func mechs() []mech {
 }
 
 // epoch change through the real node_manager path (thorough tier):
-//   join    registerCandidate(new) + approveCandidate by a quorum + commitDpos by the operator: N -> N+1
-//   replace registerCandidate(new) + approveCandidate by a quorum + blackNode(validator 0) by a quorum of the
-//           others (the quorum-completing blackNode runs commitDpos itself): validator 0 out, new one in
-//   shrink  blackNode(validator 0) by a quorum (needs N >= 5: node_manager keeps > MIN_PEER_NUM peers): N -> N-1
+//
+//	join    registerCandidate(new) + approveCandidate by a quorum + commitDpos by the operator: N -> N+1
+//	replace registerCandidate(new) + approveCandidate by a quorum + blackNode(validator 0) by a quorum of the
+//	        others (the quorum-completing blackNode runs commitDpos itself): validator 0 out, new one in
+//	shrink  blackNode(validator 0) by a quorum (needs N >= 5: node_manager keeps > MIN_PEER_NUM peers): N -> N-1
 func epochChange(w *ccm.W, vals []*polyenv.Acct, mode string, height uint32) error {
 	nv := acct(newValK)
 	ser := func(f func(*common.ZeroCopySink)) []byte { s := common.NewZeroCopySink(nil); f(s); return s.Bytes() }
@@ -330,7 +331,7 @@ func main() {
 		"mechanisms": []string{"vote router", "ripple router", "UpdateFee", "AddSignature", "vote router with blacklisted target (failed release)"},
 		"N_range":    fmt.Sprintf("1..%d", nmax), "epoch_change_modes": []string{"join N>=1", "replace N>=4", "shrink N>=5"},
 		"epoch_change_scope": map[bool]string{true: "every mechanism, every N", false: "vote router and AddSignature at N=4,5"}[r.Thorough()],
-		"states":     total.States, "transitions": total.Transitions, "traces_validated_against_impl": total.Transitions, "max_depth": total.MaxDepth,
+		"states":             total.States, "transitions": total.Transitions, "traces_validated_against_impl": total.Transitions, "max_depth": total.MaxDepth,
 	})
 }
 
